@@ -587,5 +587,5 @@ func TestC13(t *testing.T) {
 	if c.Thorough() {
 		maxR = 6
 	}
-	RunRapid(c, t, Sub[c13Case]{Kind: "schedule", Quick: 12_000, Thorough: 400_000, Gen: genC13(maxR), Check: c13Check})
+	RunRapid(c, t, Sub[c13Case]{Kind: "schedule", Quick: 60_000, Thorough: 400_000, Gen: genC13(maxR), Check: c13Check})
 }
